@@ -100,11 +100,11 @@ theorem mem_walsOf {cs : List Ckpt} {w : Path} : w ∈ walsOf cs ↔ ∃ c ∈ c
   simp [walsOf, List.mem_flatMap]
 
 theorem mem_droppedOf {cs : List Ckpt} {ids : List Nat} {c : Ckpt} :
-    c ∈ droppedOf cs ids ↔ c ∈ cs ∧ c.id ∉ ids := by
+    c ∈ droppedOf cs ids ↔ c ∈ cs ∧ keeps ids c = false := by
   simp [droppedOf]
 
 theorem mem_keptOf {cs : List Ckpt} {ids : List Nat} {c : Ckpt} :
-    c ∈ keptOf cs ids ↔ c ∈ cs ∧ c.id ∈ ids := by
+    c ∈ keptOf cs ids ↔ c ∈ cs ∧ keeps ids c = true := by
   simp [keptOf]
 
 
@@ -371,9 +371,9 @@ theorem step_inv1 {s s' : State} {x : Inst} {a : Act} (inv : Inv1 s x) (hsc : in
         refine ⟨{ x with ckpts := keptOf x.ckpts ids }, ?_⟩
         have hkept : ∀ h ∈ s.retained, ∀ c ∈ x.ckpts, c.id = h.id → c ∈ keptOf x.ckpts ids := by
           intro h hh c hcm hid
-          by_cases hin : c.id ∈ ids
+          by_cases hin : keeps ids c = true
           · exact mem_keptOf.mpr ⟨hcm, hin⟩
-          · have := hok c (mem_droppedOf.mpr ⟨hcm, hin⟩)
+          · have := hok c (mem_droppedOf.mpr ⟨hcm, by simpa using hin⟩)
             have := (inv.own h hh).1
             omega
         exact {
